@@ -7,6 +7,8 @@ from . import engine, gen
 from .engine import H, run_scenario
 from .oracles_basic import C01, C02, C03
 from .oracles_tree import C04, C05, C06
+from .oracles_flat import C07, C08, C12, StopOutsideProviso
+from .oracles_misc import C09, C10, C11, C13
 
 DEFAULTS = {
     "T_HOO": {"nu": 1, "rho": 0.5},
@@ -66,6 +68,14 @@ class Check:
 
     def generate(self, r, seed, tier):
         raise NotImplementedError
+
+    def generate_indexed(self, i, r, seed, tier):
+        return self.generate(r, seed, tier)
+
+    record_all_digests = 0
+
+    def post_batch(self, tier, seed, agg):
+        return []
 
     def run(self, sc):
         return run_scenario(sc, self.oracles, judged=self.judged or {self.prop})
@@ -463,6 +473,531 @@ class CheckC06(CheckC05):
     probe_names = ["c06-thoo-truncation-reached", "c06-decision-ambiguous", "c06-expansions-judged", "c06-pulled-internal-cell-not-resplit"]
 
 
+class CheckC08(Check):
+    prop = "C08"
+    design_ref = "DESIGN.md 5.8"
+    oracles = (StopOutsideProviso, C04, C08)
+    judged = {"C08"}
+    sizes = {"quick": 4000, "thorough": 120000}
+    chunk = 40
+    technique = ("deterministic simulation: nondeterministic specification of the optimistic sweep evaluated on shadow state (ledger + "
+                 "shadow tree) at every expansion and every hand-out")
+    level_text = ("each expansion and each evaluated cell of seeded SOO/StoSOO/DOO histories is checked against the published rule on the "
+                  "simulator's own ledger; ties and depth caps (binding and not) are generated on purpose")
+    rule = ("SOO/StoSOO/DOO x partitions x boxes x reward programs (ties, negatives) x budgets x depth caps (big, tight, binding) x k; "
+            "non-trivial = >= 10 rounds and >= 1 expansion; distinct = (algorithm, partition, K, d, reward kind, RNG policy, leaf-set hash)")
+    assumptions = ["a run whose depth cap is exhausted (outside C01's proviso) is judged only up to the pull that returns no point / spins",
+                   "DOO's default delta(h) is recomputed from the shadow tree (max squared half-width along dimension 0 at depth h)",
+                   "b-values within 1e-9 relative tolerance count as maximal"]
+    fault_kinds = CheckC01.fault_kinds
+    probe_names = ["c08-soo-sweep-with->=2-expansions", "c08-soo-second-sweep-in-one-pull", "c08-stosoo-k-cap-hit",
+                   "c08-doo-expansion-of-non-deepest-leaf"]
+
+    def generate(self, r, seed, tier):
+        algo = r.choice(["SOO", "StoSOO", "DOO"])
+        n = r.choice([100, 128, 200, 300, 400])
+        kinds = ["const", "int", "fewlevels", "gauss", "obj", "neg", "unit", "zero", "late", "altsign", "objneg"]
+        return gen.base_scenario(r, seed, algo, n=n, reward_kinds=kinds)
+
+
+class CheckC12(Check):
+    prop = "C12"
+    design_ref = "DESIGN.md 5.12"
+    oracles = (C04, C12)
+    judged = {"C12"}
+    sizes = {"quick": 5000, "thorough": 150000}
+    chunk = 50
+    technique = ("deterministic simulation: opening-schedule specification evaluated on shadow state at every expansion and every round")
+    level_text = ("every opening (depth order, per-depth budget floor(h_max/h), best unopened cell, children evaluated once and in order) and "
+                  "the post-schedule behaviour are checked on seeded histories with ties and negative rewards")
+    rule = ("SequOOL with n in 10..600 x partitions x boxes x reward programs; non-trivial = >= 10 rounds and >= 1 expansion; distinct = "
+            "(partition, K, d, reward kind, RNG policy, leaf-set hash)")
+    assumptions = ["h_max = floor(n / H_n) with H_n summed in floating point"]
+    fault_kinds = CheckC01.fault_kinds
+    probe_names = ["c12-depth-advance-by-last-unopened-cell", "c12-depth-advance-by-budget", "c12-schedule-exhausted"]
+
+    def generate(self, r, seed, tier):
+        n = r.choice([10, 12, 17, 30, 50, 100, 128, 200, 300, 600])
+        sc = gen.base_scenario(r, seed, "SequOOL", n=n, T=r.choice([n, n, n, max(1, n // 2), r.randint(1, n)]),
+                               reward_kinds=["const", "int", "fewlevels", "gauss", "obj", "neg", "unit", "zero", "late", "altsign"])
+        if r.random() < 0.3:
+            sc["schedule"] = [{"after": r.randint(max(1, sc["rounds"] - 20), sc["rounds"]), "times": 1} for _ in range(3)]
+        return sc
+
+
+class CheckC07(Check):
+    prop = "C07"
+    design_ref = "DESIGN.md 5.7"
+    oracles = (StopOutsideProviso, C04, C07)
+    judged = {"C07"}
+    sizes = {"quick": 5000, "thorough": 150000}
+    chunk = 50
+    technique = ("deterministic simulation: the simulated client's ledger of (cell, point, reward) versus the recommendation, under "
+                 "sign/tie reward adversaries and short runs")
+    level_text = ("the recommendation of every seeded run (T from 1 to n, all-negative / tied / constant reward programs) is compared with "
+                  "the best evaluated candidate in the simulator's own ledger")
+    rule = ("DOO/SOO/SequOOL/StoSOO/StroquOOL/POO/GPO/PCT/VPCT x partitions x boxes x sign/tie reward programs x T in 1..n; non-trivial = "
+            ">= 10 rounds and >= 1 expansion; distinct = (algorithm[:base], partition, K, d, reward kind, RNG policy, leaf-set hash)")
+    assumptions = ["StroquOOL is judged only in runs that reached its validation phase; GPO/PCT/VPCT only once all phases are over",
+                   "SequOOL's post-schedule centre pulls are not search evaluations"]
+    fault_kinds = CheckC01.fault_kinds
+    probe_names = ["c07-stroquool-validation-judged", "c07-gpo-final-judged"]
+
+    def generate(self, r, seed, tier):
+        algo = gen.weighted(r, [("DOO", 3), ("SOO", 3), ("SequOOL", 3), ("StoSOO", 3), ("StroquOOL", 3), ("POO", 2), ("GPO", 1.5),
+                                ("PCT", 1), ("VPCT", 1)])
+        n = r.choice([100, 128, 200, 300, 400])
+        kinds = ["neg", "neg", "zero", "const", "int", "fewlevels", "late", "objneg", "obj", "gauss", "altsign"]
+        sc = gen.base_scenario(r, seed, algo, n=n, reward_kinds=kinds, ok_only=True, cap_mode=r.choice(["big", "tight"]),
+                               sched_prob=0.3 if algo in ("DOO", "SOO", "SequOOL", "StoSOO", "POO") else 0.0)
+        if algo in ("GPO", "PCT", "VPCT"):
+            if derived(sc).get("gpo_L_zero"):
+                sc["params"]["rhomax"] = 0.9
+            sc["rounds"] = n if r.random() < 0.7 else sc["rounds"]
+        if algo == "StroquOOL" and r.random() < 0.7:
+            sc["rounds"] = r.randint(max(1, n // 25), max(2, n // 5))
+        return sc
+
+
+RHOMAX_GRID = [0.3, 0.5, 0.7, 0.8, 0.85, 0.9, 0.93, 0.95]
+
+
+class CheckC09(Check):
+    prop = "C09"
+    design_ref = "DESIGN.md 5.9"
+    oracles = (C04, C09)
+    judged = {"C09"}
+    table_n = {"quick": (100, 400), "thorough": (100, 3000)}
+    extra = {"quick": 1200, "thorough": 30000}
+    chunk = 40
+    technique = ("deterministic simulation with recording base learners (peer spies): reference schedule (reward independent) enumerated "
+                 "exhaustively over a range of n x rho_max grid, plus seeded search over reward histories, partitions and boxes")
+    level_text = ("constructions, pulls and rewards seen by the recording learner class are compared round by round with the published "
+                  "schedule N, L, rho grid, validation and final selection; the schedule table is exhaustive over the stated n range, the "
+                  "rest is seeded exploration")
+    assumptions = ["configurations with floor(n/2N) = 0 are excluded (recorded finding of C01)",
+                   "PCT/VPCT are observed by substituting the recording class for the name HCT/VHCT in their module during construction"]
+    fault_kinds = CheckC01.fault_kinds
+    probe_names = ["c09-phases-started", "c09-validation-rounds", "c09-schedule-completed", "c09-post-schedule-pulls",
+                   "c09-final-recommendation-judged"]
+
+    @property
+    def sizes(self):
+        return {t: (hi - lo + 1) * len(RHOMAX_GRID) + self.extra[t] for t, (lo, hi) in self.table_n.items()}
+
+    @property
+    def rule(self):
+        return ("run indices below (n_hi-n_lo+1)*%d enumerate the schedule table exhaustively: every budget n in the tier's range "
+                "(quick 100..400, thorough 100..3000) x rho_max in %s, base learner cycling with n, full budget T=n, fixed reward program; "
+                "the remaining runs are a seeded swarm over partitions, boxes, parameters, reward programs and T; non-trivial = >= 10 "
+                "rounds and >= 2 learners; distinct = (n, rho_max, learner, wrapper) for the table, the usual tuple otherwise" % (
+                    len(RHOMAX_GRID), RHOMAX_GRID))
+
+    def generate_indexed(self, i, r, seed, tier):
+        lo, hi = self.table_n[tier]
+        tab = (hi - lo + 1) * len(RHOMAX_GRID)
+        if i < tab:
+            n = lo + i // len(RHOMAX_GRID)
+            rhomax = RHOMAX_GRID[i % len(RHOMAX_GRID)]
+            j = (n + i) % 5
+            base = ["T_HOO", "HCT", "VHCT"][(n + i % len(RHOMAX_GRID)) % 3]
+            algo = "GPO"
+            if j == 3 and base != "T_HOO":
+                algo = "PCT" if base == "HCT" else "VPCT"
+            sc = {"algo": algo, "params": {"numax": 1.0, "rhomax": rhomax, "rounds": n}, "partition": {"cls": "BinaryPartition"},
+                  "domain": [[0.0, 1.0]], "budget": n, "rounds": n, "rewards": {"kind": "unit", "seed": 1},
+                  "rng": {"mode": "scripted", "policy": {}, "seed": 1}, "schedule": [], "meta": {"table": True}}
+            if algo == "GPO":
+                sc["base"] = base
+            return sc
+        return self.generate(r, seed, tier)
+
+    def generate(self, r, seed, tier):
+        algo = gen.weighted(r, [("GPO", 3), ("PCT", 1), ("VPCT", 1)])
+        n = r.choice([100, 128, 200, 300, 400, 600])
+        sc = gen.base_scenario(r, seed, algo, n=n, ok_only=False)
+        sc["params"]["rhomax"] = r.choice([r.uniform(0.05, 0.97), r.uniform(0.8, 0.97)])
+        if derived(sc).get("gpo_L_zero"):
+            sc["params"]["rhomax"] = 0.9
+        if r.random() < 0.6:
+            sc["rounds"] = n
+        return sc
+
+    def distinct_key(self, sc, res):
+        if (sc.get("meta") or {}).get("table"):
+            return ("table", sc["params"]["rounds"], sc["params"]["rhomax"], sc.get("base"), sc["algo"])
+        return Check.distinct_key(self, sc, res)
+
+    def nontrivial(self, sc, res):
+        return res.rounds >= 10 and res.probes.get("c09-phases-started", 0) >= 1
+
+    def extra_coverage(self, agg):
+        return {"schedule_table": {"n_range": "see rule", "rhomax_grid": RHOMAX_GRID,
+                                   "exhaustive_over_table": agg["skipped"] == 0}}
+
+
+class CheckC10(Check):
+    prop = "C10"
+    design_ref = "DESIGN.md 5.10"
+    oracles = (C10,)
+    sizes = {"quick": 2500, "thorough": 60000}
+    chunk = 25
+    technique = ("deterministic simulation with recording base learners: routing / exactly-once ledger per learner, scores against true "
+                 "means, rho grid membership, after every round")
+    level_text = ("every POO round of seeded histories is checked for one-learner routing, reward delivery to the same learner, "
+                  "append-only population on the rho grid, and score = mean / count = number of the learner's own rewards")
+    rule = ("POO over T_HOO/HCT/VHCT x partitions x boxes x reward programs x rho_max in [0.84,0.985) x budgets up to 3000 (thorough); "
+            "non-trivial = >= 10 rounds and >= 2 learners; distinct = (base, partition, K, d, reward kind, RNG policy, leaf-set hash of "
+            "the first learner, number of learners)")
+    assumptions = ["rho_max >= 0.84 (smaller values are the recorded finding F-POO-rhomax of C01)"]
+    fault_kinds = CheckC01.fault_kinds
+    probe_names = ["c10-second-creation-burst", "c10-round-robin-rounds", "c10-recommendations-judged"]
+
+    def generate(self, r, seed, tier):
+        n = r.choice([100, 200, 300, 600] if tier == "quick" else [100, 200, 300, 600, 1000, 3000])
+        sc = gen.base_scenario(r, seed, "POO", n=n, ok_only=True, sched_prob=0.5)
+        sc["params"]["rhomax"] = r.uniform(0.84, 0.985)
+        if r.random() < 0.7:
+            sc["rounds"] = n
+        return sc
+
+    def distinct_key(self, sc, res):
+        return Check.distinct_key(self, sc, res) + (res.stats.get("learners", 0),)
+
+
+class CheckC11(Check):
+    prop = "C11"
+    design_ref = "DESIGN.md 5.11"
+    oracles = (C04, C11)
+    judged = {"C11"}
+    sizes = {"quick": 4000, "thorough": 150000}
+    chunk = 40
+    technique = ("deterministic simulation: coverage invariant over the leaves, index maximality and refinement rule checked after every "
+                 "round; midpoint partitions (arm on the shared face) generated on purpose")
+    level_text = ("after every round of seeded Zooming histories: every arm in its cell, every leaf covered by an active cell, played arm "
+                  "maximises the published index, refinement exactly by the radius rule with new arms for the children that lose the arm")
+    rule = ("Zooming x all partitions (midpoint ones weighted up) x boxes x nu, rho x reward programs; non-trivial = >= 10 rounds and >= 1 "
+            "refinement; distinct = (partition, K, d, reward kind, RNG policy, leaf-set hash)")
+    assumptions = ["the refinement test may see the phase before or after the round's phase update; radius within 1e-9 of the threshold accepts both"]
+    fault_kinds = CheckC01.fault_kinds
+    probe_names = ["c11-arm-on-shared-face", "c11-refinements-judged"]
+
+    def generate(self, r, seed, tier):
+        pool = gen.PARTS_ALL + gen.PARTS_MIDPOINT * 2
+        sc = gen.base_scenario(r, seed, "Zooming", parts=pool, n=r.choice([100, 200, 400]), sched_prob=0.2)
+        if r.random() < 0.5:
+            sc["params"] = {"nu": gen.loguniform(r, 0.5, 20), "rho": r.uniform(0.5, 0.95)}
+        return sc
+
+    def nontrivial(self, sc, res):
+        return res.rounds >= 10 and res.stats.get("expansions", 0) >= 3
+
+
+class CheckC13(Check):
+    prop = "C13"
+    design_ref = "DESIGN.md 5.13"
+    oracles = (C04, C13)
+    judged = {"C13"}
+    sizes = {"quick": 500, "thorough": 12000}
+    budget_s = {"quick": 110, "thorough": 1500}
+    chunk = 4
+    technique = ("deterministic simulation with the simulator owning np.random.choice/randint/uniform: the probability vector passed, the "
+                 "outcome forced (least likely / first / last cell) and the designated cell are all observed")
+    level_text = ("at every pull of seeded VROOM histories the ranks are checked to be a permutation ordered by the ledger's lower "
+                  "confidence values, the probability vector to be 1/(h*r*C), and the returned point to lie in the designated cell")
+    rule = ("VROOM with n <= 128 on binary-child partitions x boxes x depth caps below/at/above the ranking depth x reward programs x "
+            "choice policies; non-trivial = >= 10 rounds; distinct = (partition, K, d, reward kind, RNG policy, h_max, leaf-set hash)")
+    assumptions = ["binary-child partitions only (statement); budgets <= 128 because the tree of 2^floor(log2 n) cells is ranked at every pull"]
+    fault_kinds = CheckC01.fault_kinds
+    probe_names = ["c13-cells-below-ranking-depth", "c13-draw-below-depth-cap"]
+
+    def generate(self, r, seed, tier):
+        sc = gen.base_scenario(r, seed, "VROOM", parts=gen.PARTS_BINARY_CHILD, real_prob=0.2)
+        sc["params"]["n"] = r.choice([16, 20, 32, 50, 64, 100, 128] if tier == "thorough" else [16, 20, 32, 50, 64])
+        n = sc["params"]["n"]
+        sd = int(math.floor(math.log2(n)))
+        sc["params"]["h_max"] = r.choice([1, 2, sd - 1, sd, sd + 1, sd + 3, 20, 100, 500])
+        sc["rounds"] = r.choice([n, n, max(1, n // 2)])
+        sc["budget"] = n
+        return sc
+
+    def nontrivial(self, sc, res):
+        return res.rounds >= 10
+
+    def distinct_key(self, sc, res):
+        return Check.distinct_key(self, sc, res) + (sc["params"]["h_max"],)
+
+
+# --------------------------------------------------------------------------- log-equality checks (twins)
+
+def lift(shrinker):
+    def f(sc):
+        out = []
+        for cand in shrinker(sc["A"]):
+            c = copy.deepcopy(sc)
+            c["A"] = cand
+            if "variants" in c:
+                T = cand["rounds"]
+                for v in c["variants"]:
+                    if "schedule" in v:
+                        v["schedule"] = [x for x in v["schedule"] if x["after"] <= T]
+            if "shift" in c and len(c["shift"]) != len(cand["domain"]):
+                continue
+            out.append(c)
+        return out
+    return f
+
+
+def shrink_twin_extras(sc):
+    out = []
+    if sc.get("B") is not None:
+        c = copy.deepcopy(sc)
+        c["B"] = None
+        out.append(c)
+        for f in (shrink_rounds, shrink_params, shrink_partition):
+            for cand in f(sc["B"])[:6]:
+                c = copy.deepcopy(sc)
+                c["B"] = cand
+                out.append(c)
+    for k in ("third_party", "alloc_noise"):
+        if sc.get(k):
+            c = copy.deepcopy(sc)
+            c[k] = 0
+            out.append(c)
+    if sc.get("share_domain"):
+        c = copy.deepcopy(sc)
+        c["share_domain"] = False
+        out.append(c)
+    if len(sc.get("variants") or []) > 1:
+        for k in range(len(sc["variants"])):
+            c = copy.deepcopy(sc)
+            c["variants"] = [sc["variants"][k]]
+            out.append(c)
+    for v_i, v in enumerate(sc.get("variants") or []):
+        if "schedule" in v and len(v["schedule"]) > 1:
+            for k in range(len(v["schedule"])):
+                c = copy.deepcopy(sc)
+                del c["variants"][v_i]["schedule"][k]
+                out.append(c)
+    return out
+
+
+class TwinCheck(Check):
+    components = dict(COMPONENTS, **{
+        "Partition / node / learner classes": "real, unwrapped (these checks compare logs of returned points only)",
+    })
+
+    def distinct_key(self, sc, res):
+        A = sc["A"]
+        rng = A["rng"]
+        return (sc["kind"], engine.algo_label(A), A["partition"]["cls"], A["partition"].get("K"), len(A["domain"]),
+                A["rewards"].get("kind"), rng.get("mode"), res.digest[:12])
+
+    def nontrivial(self, sc, res):
+        return res.rounds >= 10
+
+    def shrinkers(self):
+        return [shrink_twin_extras, lift(shrink_rounds), lift(shrink_params), lift(shrink_domain), lift(shrink_partition)]
+
+
+def _twin_base(r, seed, algo, **kw):
+    pool = kw.pop("parts", None)
+    if algo == "VROOM":
+        pool = gen.PARTS_BINARY_CHILD
+    sc = gen.base_scenario(r, seed, algo, parts=pool, ok_only=True, cap_mode="big", **kw)
+    if algo in ("GPO", "PCT", "VPCT") and derived(sc).get("gpo_L_zero"):
+        sc["params"]["rhomax"] = 0.9
+    if algo == "POO":
+        sc["params"]["rhomax"] = max(sc["params"]["rhomax"], 0.84)
+    if algo == "VROOM":
+        sc["params"]["n"] = r.choice([16, 32, 50, 64])
+        sc["rounds"] = min(sc["rounds"], sc["params"]["n"])
+    sc["rewards"].pop("opt", None)
+    if sc["rewards"]["kind"] in ("obj", "objneg"):
+        sc["rewards"]["kind"] = "gauss"     # rewards are a function of the round index only
+    return sc
+
+
+class CheckC14(TwinCheck):
+    prop = "C14"
+    design_ref = "DESIGN.md 5.14"
+    sizes = {"quick": 1500, "thorough": 40000}
+    fresh = {"quick": 160, "thorough": 3000}
+    chunk = 20
+    technique = ("deterministic simulation: the same scenario replayed in-process, under allocation noise and a jumping clock with "
+                 "tripwires on foreign randomness, in fresh interpreters under other PYTHONHASHSEED values, and two instances interleaved "
+                 "call by call by a seeded scheduler (optionally sharing the domain object); event-log equality")
+    level_text = ("log equality between repeated, perturbed and interleaved executions of seeded scenarios; the interleaving of two "
+                  "instances is decided by the simulator's scheduler, hash seed / allocation / clock are varied deliberately")
+    rule = ("A = any algorithm (real NumPy seed in 70% of runs) x partition x box x rewards; B = second instance on an RNG-free partition "
+            "when A is RNG-free too; non-trivial = >= 10 rounds; distinct = (algorithm, partition, K, d, reward kind, RNG mode, log digest)")
+    assumptions = ["interleaving part only on RNG-outcome-free partitions (DimensionBinary; Binary/K-ary in 1-D) and not VROOM, as the statement says",
+                   "tripwires cover random.*, time.*, os.urandom, uuid, numpy.random.{default_rng,RandomState,rand,randn,random,normal,...}"]
+    fault_kinds = ["alloc-noise", "clock-jump", "hashseed", "interleaving", "shared-domain-object", "third-party-instance"]
+    probe_names = ["c14-shared-domain-object"]
+
+    def generate(self, r, seed, tier):
+        algo = r.choice(gen.ALGOS_ALL)
+        n = r.choice([100, 128, 200])
+        A = _twin_base(r, seed, algo, n=n, real_prob=0.7, sched_prob=0.3 if algo in ("T_HOO", "HCT", "VHCT", "Zooming", "POO") else 0.0)
+        A["rounds"] = min(A["rounds"], 200)
+        if r.random() < 0.45 and algo != "VROOM":
+            # bias towards RNG-free partitions so that the interleaving part runs often
+            A["partition"] = {"cls": "DimensionBinaryPartition"} if len(A["domain"]) > 1 else dict(r.choice(
+                [{"cls": "BinaryPartition"}, {"cls": "DimensionBinaryPartition"}, {"cls": "KaryPartition", "K": 3}]))
+        sc = {"kind": "c14", "A": A, "B": None, "sched_seed": seed, "share_domain": False, "third_party": 0,
+              "alloc_noise": r.choice([0, 1, 3])}
+        d = len(A["domain"])
+        free = A["partition"]["cls"] == "DimensionBinaryPartition" or (d == 1 and A["partition"]["cls"] in ("BinaryPartition", "KaryPartition"))
+        if free and algo != "VROOM" and r.random() < 0.8:
+            balgo = r.choice([a for a in gen.ALGOS_ALL if a != "VROOM"])
+            pool = [{"cls": "DimensionBinaryPartition"}] if d > 1 else \
+                [{"cls": "BinaryPartition"}, {"cls": "DimensionBinaryPartition"}, {"cls": "KaryPartition", "K": 3}, {"cls": "KaryPartition", "K": 2}]
+            B = _twin_base(r, seed + 1, balgo, n=r.choice([100, 128]), parts=pool, real_prob=1.0)
+            B["rng"] = A["rng"]
+            B["domain"] = copy.deepcopy(A["domain"])
+            B["rounds"] = min(B["rounds"], 150)
+            sc["B"] = B
+            sc["share_domain"] = r.random() < 0.5
+            sc["third_party"] = r.choice([0, 0, 1])
+        return sc
+
+    record_all_digests = 3000
+
+    def run(self, sc):
+        from .twins import run_c14, run_c14_hashseed
+        if (sc.get("env") or {}).get("hashseed") is not None:
+            return run_c14_hashseed(sc)
+        return run_c14(sc)
+
+    def post_batch(self, tier, seed, agg):
+        """Fresh interpreters under other PYTHONHASHSEED values must produce the same logs."""
+        import os
+        from concurrent.futures import ThreadPoolExecutor
+        from . import runner
+        if os.environ.get("VERIF_NO_FRESH"):
+            return []
+        idx = sorted(i for i in agg["digests"] if i < self.fresh[tier])
+        if not idx:
+            return []
+        seeds = ["1", "4242", "random"]
+        out = []
+        with ThreadPoolExecutor(max_workers=3) as ex:
+            results = list(ex.map(lambda hs: runner.selftest_fresh(self.prop, tier, seed, idx, hs), seeds))
+        agg["stats"]["fresh-interpreter-runs"] += len(idx) * len(seeds)
+        agg["fired"]["hashseed"] += len(idx) * len(seeds)
+        for hs, fresh in zip(seeds, results):
+            for i in idx:
+                if fresh.get(i) != agg["digests"][i]:
+                    sc, res = runner.run_index(self.prop, tier, seed, i)
+                    sc2 = copy.deepcopy(sc)
+                    sc2["env"] = {"hashseed": hs}
+                    sc2["B"] = None
+                    info = {"property": "C14", "clause": "hashseed-differs", "algo": engine.algo_label(sc["A"]), "site": None,
+                            "detail": "log under PYTHONHASHSEED=%s differs from the log under PYTHONHASHSEED=0" % hs, "round": res.rounds}
+                    info["signature"] = engine.signature(info)
+                    out.append({"i": i, "info": info, "scenario": sc2, "explicit": sc2})
+        return out
+
+
+class CheckC15(TwinCheck):
+    prop = "C15"
+    design_ref = "DESIGN.md 5.15"
+    sizes = {"quick": 2500, "thorough": 80000}
+    chunk = 25
+    technique = ("deterministic simulation: twin runs of one seeded scenario that differ only in the time labels passed (0-based, offset, "
+                 "gapped) or in get_last_point calls interjected by the scheduler; event-log equality")
+    level_text = ("for every seeded scenario the sequence of pulled points and the recommendation are compared between label conventions "
+                  "and between runs with and without scheduler-chosen recommendation queries")
+    rule = ("T_HOO/HCT/VHCT/Zooming/POO/GPO/PCT/VPCT/DOO/SOO/SequOOL/VROOM x partitions x boxes x rewards x RNG modes; label variants zero / "
+            "offset 17 / seeded gaps; query variants (first five algorithms) 1..5 queries in a row at scheduler-chosen rounds; non-trivial = "
+            ">= 10 rounds; distinct = (algorithm, partition, K, d, reward kind, RNG mode, log digest)")
+    assumptions = ["StoSOO and StroquOOL read the label and are excluded by the statement"]
+    fault_kinds = ["label-skew:zero", "label-skew:offset", "label-skew:gaps", "interject-query"]
+    QUERY_OK = ("T_HOO", "HCT", "VHCT", "Zooming", "POO")
+
+    def generate(self, r, seed, tier):
+        algo = r.choice(["T_HOO", "HCT", "VHCT", "Zooming", "POO", "GPO", "PCT", "VPCT", "DOO", "SOO", "SequOOL", "VROOM"])
+        A = _twin_base(r, seed, algo, n=r.choice([100, 128, 200, 300]))
+        A["rounds"] = min(A["rounds"], 300)
+        T = A["rounds"]
+        variants = [{"labels": {"scheme": "zero"}}, {"labels": {"scheme": "offset", "offset": 17}},
+                    {"labels": {"scheme": "gaps", "seed": seed, "start": r.randint(0, 5), "maxgap": r.choice([2, 5, 1000])}}]
+        r.shuffle(variants)
+        variants = variants[: r.randint(1, 3)]
+        if algo in self.QUERY_OK:
+            sch = [{"after": r.randint(1, T), "times": r.randint(1, 5)} for _ in range(r.randint(1, 8))]
+            variants.append({"schedule": sch})
+        return {"kind": "c15", "A": A, "variants": variants}
+
+    def run(self, sc):
+        from .twins import run_c15
+        return run_c15(sc)
+
+
+class CheckC16(TwinCheck):
+    prop = "C16"
+    design_ref = "DESIGN.md 5.16"
+    sizes = {"quick": 2500, "thorough": 80000}
+    chunk = 25
+    technique = ("deterministic simulation: lock-step twin runs on a box and on its affine image under one scripted RNG stream owned by the "
+                 "simulator; mapped event-log equality (bit-exact class / 1e-9 tolerance class)")
+    level_text = ("metamorphic twin runs under a shared scripted stream of unit draws: power-of-two scalings and dyadic translations are "
+                  "compared bit for bit, arbitrary affine maps to 1e-9 of the box scale")
+    rule = ("all algorithms x partitions x scripted RNG policies x rewards (function of the round index); exact class: scale 2^k (|k|<=20), "
+            "or dyadic shift of a dyadic box under midpoint partitions (falls to tolerance at the first coordinate whose image is not "
+            "exactly representable); tolerance class: arbitrary scale and shift, not for Zooming / default-delta DOO; non-trivial = >= 10 "
+            "rounds; distinct = (algorithm, partition, K, d, reward kind, map class, log digest)")
+    assumptions = ["DOO with its default delta is tested for translation only (documented exception)",
+                   "Zooming and default-delta DOO compare coordinates and are judged in the exact class only"]
+    fault_kinds = CheckC01.fault_kinds
+
+    def generate(self, r, seed, tier):
+        algo = r.choice(gen.ALGOS_ALL)
+        mode = r.choice(["scale2", "scale2", "shift-dyadic", "tol"])
+        coord_sensitive = algo == "Zooming"
+        parts = None
+        if mode == "shift-dyadic":
+            parts = gen.PARTS_MIDPOINT
+        A = _twin_base(r, seed, algo, n=r.choice([100, 128, 200]), real_prob=0.0, parts=parts)
+        if algo == "VROOM" and mode == "shift-dyadic":
+            A["partition"] = r.choice([{"cls": "BinaryPartition"}, {"cls": "KaryPartition", "K": 2}])
+        A["rounds"] = min(A["rounds"], 200)
+        # nextafter() at an end point does not commute with an affine map (it is the simulator's shaping, not PyXAB's)
+        A["rng"]["policy"]["endpoint_tags"] = ["lo", "hi"]
+        doo_default = algo == "DOO" and (A["params"].get("delta") is None)
+        d = len(A["domain"])
+        if (coord_sensitive or doo_default) and mode == "tol":
+            mode = "shift-dyadic" if doo_default else r.choice(["scale2", "shift-dyadic"])
+            if mode == "shift-dyadic" and A["partition"] not in gen.PARTS_MIDPOINT:
+                A["partition"] = dict(r.choice(gen.PARTS_MIDPOINT))
+        if doo_default and mode == "scale2":
+            mode = "shift-dyadic"
+            if A["partition"] not in gen.PARTS_MIDPOINT:
+                A["partition"] = dict(r.choice(gen.PARTS_MIDPOINT))
+        if mode == "scale2":
+            sc = {"scale": 2.0 ** r.randint(-20, 20), "shift": [0.0] * d, "cls": "exact"}
+        elif mode == "shift-dyadic":
+            A["domain"] = [[lo, lo + 2.0 ** r.randint(-2, 3)] for lo in [r.randint(-16, 16) / 4.0 for _ in range(d)]]
+            A["rng"]["policy"]["dyadic"] = r.choice([2, 4])
+            A["rng"]["policy"]["endpoint"] = 0.0
+            sc = {"scale": 1.0, "shift": [r.randint(-64, 64) / 4.0 for _ in range(d)], "cls": "exact"}
+        else:
+            sc = {"scale": gen.loguniform(r, 1e-3, 1e3) if r.random() < 0.7 else 1.0,
+                  "shift": [r.uniform(-100, 100) if r.random() < 0.8 else 0.0 for _ in range(d)], "cls": "tol"}
+        sc["kind"] = "c16"
+        sc["A"] = A
+        sc["mode"] = mode
+        return sc
+
+    def distinct_key(self, sc, res):
+        return TwinCheck.distinct_key(self, sc, res) + (sc.get("mode"),)
+
+    def run(self, sc):
+        from .twins import run_c16
+        return run_c16(sc)
+
+
 CHECKS = {}
 
 
@@ -470,5 +1005,6 @@ def register(c):
     CHECKS[c.prop] = c()
 
 
-for _c_ in (CheckC01, CheckC02, CheckC03, CheckC04, CheckC05, CheckC06):
+for _c_ in (CheckC01, CheckC02, CheckC03, CheckC04, CheckC05, CheckC06, CheckC07, CheckC08, CheckC09, CheckC10, CheckC11,
+            CheckC12, CheckC13, CheckC14, CheckC15, CheckC16):
     register(_c_)
